@@ -314,6 +314,11 @@ func (x *chanCtx) open(o *h.Outcome) (gen.StateSpec, *h.Failure) {
 func (x *chanCtx) offer(o *h.Outcome, cur, cand gen.StateSpec, actor int, v *verdict, full bool, peer int, badSig string) (bool, *h.Failure) {
 	before := takeSnap(x.m)
 	inActing := x.m.Phase() == channel.Acting
+	// a disagreement of CheckUpdate is reported after Update had its turn, so
+	// that the replay of a wrongly accepted candidate shows the whole path
+	// (checked, staged, signed)
+	var cuFail *h.Failure
+	cuNote := ""
 	_, encErr := enc(cand.Build())
 	candOK := encErr == nil
 	act := channel.Index(uint16(actor))
@@ -342,10 +347,11 @@ func (x *chanCtx) offer(o *h.Outcome, cur, cand gen.StateSpec, actor int, v *ver
 		case v.unspecified():
 			o.Class(fmt.Sprintf("unspecified:backend-id-changed:checkupdate-accepts=%v", err == nil))
 		case err == nil && !v.acceptable():
-			return false, h.Failf("checkupdate-accepts-invalid:"+v.sig(), "CheckUpdate accepted (valid signature) a candidate that violates: %s", v.sig())
+			cuFail = h.Failf("checkupdate-accepts-invalid:"+v.sig(), "CheckUpdate accepted (valid signature) a candidate that violates: %s", v.sig())
 		case err != nil && v.acceptable():
-			return false, h.Failf("checkupdate-refuses-valid", "CheckUpdate refused an acceptable candidate with a valid signature: %v", err)
+			cuFail = h.Failf("checkupdate-refuses-valid", "CheckUpdate refused an acceptable candidate with a valid signature: %v", err)
 		}
+		cuNote = fmt.Sprintf("; CheckUpdate with a valid signature of participant %d returned: %v", peer, err)
 		// CheckUpdate with an invalid signature refuses everything
 		bsig, kind := x.badSig(badSig, peer, cur, cand, candOK)
 		o.Class("badsig:" + kind)
@@ -376,10 +382,23 @@ func (x *chanCtx) offer(o *h.Outcome, cur, cand gen.StateSpec, actor int, v *ver
 		case v.unspecified():
 			o.Class(fmt.Sprintf("unspecified:backend-id-changed:update-accepts=%v", accepted))
 		case accepted && !v.acceptable():
-			return false, h.Failf("update-accepts-invalid:"+v.sig(), "Update accepted (staged for signing) a candidate that violates: %s", v.sig())
+			signed := ""
+			_ = guard("Sig", func() {
+				sig, err := x.m.Sig()
+				if err != nil {
+					signed = fmt.Sprintf("; Sig() then failed: %v", err)
+					return
+				}
+				ok, _ := channel.Verify(gen.Acc(x.c.Own).Address(), cand.Build(), sig)
+				signed = fmt.Sprintf("; Sig() then returned a signature that verifies over the candidate: %v", ok)
+			})
+			return false, h.Failf("update-accepts-invalid:"+v.sig(), "Update accepted (staged for signing) a candidate that violates: %s%s%s", v.sig(), signed, cuNote)
 		case !accepted && v.acceptable():
-			return false, h.Failf("update-refuses-valid", "Update refused an acceptable candidate: %v", err)
+			return false, h.Failf("update-refuses-valid", "Update refused an acceptable candidate: %v%s", err, cuNote)
 		}
+	}
+	if cuFail != nil {
+		return false, cuFail
 	}
 	if !accepted {
 		return false, x.checkRefused(before, cand, candOK)
@@ -709,34 +728,72 @@ var assumptions = []string{
 	"signature arguments index an existing participant (AddSig/CheckUpdate document a panic otherwise)",
 }
 
-func runPart(t *testing.T, part, app string) {
-	rec := h.Begin("C02", part)
-	rec.SetRule(ruleUpdate, assumptions...)
-	defer rec.Flush()
-	pin := &sigPin{}
-	rapid.Check(t, func(rt *rapid.T) {
-		c := drawUpdateCase(rt, app)
-		rec.Report(rt, c, pin.filter(runCase(c)))
-	})
+// runPasses runs the property; when a pass ends with a (shrunk) failure, the
+// part is run again with that signature set aside, so that a second, different
+// manifestation is still found and shrunk in the same run (at most 3 passes;
+// each failing pass writes its own replay file).  A clean first pass is the
+// only pass.
+func runPasses(t *testing.T, part, rule string, draw func(*rapid.T) Case) {
+	seen := map[string]bool{}
+	for pass := 1; pass <= 3; pass++ {
+		name := part
+		if pass > 1 {
+			name = fmt.Sprintf("%s-pass%d", part, pass)
+		}
+		rec := h.Begin("C02", name)
+		if pass == 1 {
+			rec.SetRule(rule, assumptions...)
+		}
+		pin := &sigPin{skip: seen}
+		ok := t.Run(fmt.Sprintf("pass%d", pass), func(t *testing.T) {
+			defer rec.Flush()
+			rapid.Check(t, func(rt *rapid.T) {
+				c := draw(rt)
+				rec.Report(rt, c, pin.filter(runCase(c)))
+			})
+		})
+		if ok || pin.sig == "" {
+			return
+		}
+		seen[family(pin.sig)] = true
+	}
+}
+
+// family: Update and CheckUpdate accepting the same kind of invalid candidate
+// are two observations of one finding.
+func family(sig string) string {
+	return strings.TrimPrefix(strings.TrimPrefix(sig, "check"), "update-")
 }
 
 // sigPin keeps rapid's shrinking on the failure it found first: while
 // minimising, a case that fails with a *different* signature does not count as
 // a reproduction (otherwise the shrinker drifts from one defect manifestation
-// to whichever has the smaller description).
-type sigPin struct{ sig string }
+// to whichever has the smaller description).  Signatures in skip were reported
+// by an earlier pass.
+type sigPin struct {
+	sig  string
+	skip map[string]bool
+}
 
 func (p *sigPin) filter(o *h.Outcome) *h.Outcome {
 	if o.Fail == nil {
 		return o
 	}
-	if p.sig == "" {
+	switch {
+	case p.skip[family(o.Fail.Sig)]:
+		o.Class("already-reported:" + o.Fail.Sig)
+		o.Fail = nil
+	case p.sig == "":
 		p.sig = o.Fail.Sig
-	} else if o.Fail.Sig != p.sig {
+	case o.Fail.Sig != p.sig:
 		o.Class("other-failure-while-shrinking:" + o.Fail.Sig)
 		o.Fail = nil
 	}
 	return o
+}
+
+func runPart(t *testing.T, part, app string) {
+	runPasses(t, part, ruleUpdate, func(rt *rapid.T) Case { return drawUpdateCase(rt, app) })
 }
 
 func TestNoApp(t *testing.T)   { runPart(t, "noapp", "none") }
@@ -745,16 +802,7 @@ func TestMockApp(t *testing.T) { runPart(t, "mock", "mock") }
 
 const ruleInit = "Init on a fresh StateMachine (N=2/3, apps no-app/payment/MockApp): arbitrary allocation (1-4 assets, N or 1-5 columns, 0-3 locked entries with index maps) with k in {0,1,2} shape mutations (negative, ragged, column added/removed, empty, row/locked dimension, ...), data NoData/MockOp(0..3) incl. foreign data for no-app and MockApp. Oracle: accepted <=> well-formed for N participants (one row per asset, one balance per participant, locked entries with one amount per asset, nothing negative, not empty) and the app's init rule (no-app: NoData; payment: any; MockApp: MockOp with op 0); accepted => staged state has version 0, the channel's id, not final, encodes like (id, 0, app, allocation, data), Sig() verifies over it; refused => phase InitActing, nothing staged, Sig() fails. non-trivial = exactly one violated condition, or accepted"
 
-func TestInit(t *testing.T) {
-	rec := h.Begin("C02", "init")
-	rec.SetRule(ruleInit, assumptions...)
-	defer rec.Flush()
-	pin := &sigPin{}
-	rapid.Check(t, func(rt *rapid.T) {
-		c := drawInitCase(rt)
-		rec.Report(rt, c, pin.filter(runCase(c)))
-	})
-}
+func TestInit(t *testing.T) { runPasses(t, "init", ruleInit, drawInitCase) }
 
 func TestReplay(t *testing.T) {
 	p := h.ReplayPath()
